@@ -18,6 +18,19 @@ package core
 // adopted by the model and the usual oracle then checks the pod's contribution to every figure
 // (used must be the LATEST delivered request of an assigned pod, whatever copy the scheduler held).
 
+//
+// On the tree this was written against both calls are atomic with respect to each other
+// (Reserve/Unreserve take the hierarchy write lock), so every observed end state is that of a
+// serial order of the CODE's transitions; two of those serial outcomes differ from the
+// specification and carry narrow signatures (minimal serial repros: TestC01ProbeSchedulerCopy in
+// /verif/out/C01-probe/probe_test.go, proposed fix /verif/out/proposed-fixes/
+// C01-reserve-unreserve-scheduler-copy.diff):
+//   - resize delivered first, then Reserve/Unreserve: used is moved by the requests of the
+//     scheduler's older copy, not by the delivered ones (used 2 instead of 5; 4 instead of 0);
+//   - bind echo delivered first, then Unreserve: the bound pod is un-assigned and counts nowhere.
+// An atomicity break (e.g. ReservePod under the read lock) shows as a generic used mismatch or as
+// C01/same-pod/end-state-not-serializable.
+
 import (
 	"fmt"
 	"sort"
